@@ -15,7 +15,8 @@
    outcomes, cache keys and scratch state after every call of every history; fresh-vs-shared oracle). *)
 From Coq Require Import ZArith QArith List Bool Permutation.
 From Verif.Model Require Import Result Lexer Parser Eval EvalSpec ParserStateCb ParserState.
-From Verif.Proofs Require Import ParserRoundTrip ParserStateCb ParserState ParserStateBr ParserStateNames ParserStateEx.
+From Verif.Proofs Require Import ParserRoundTrip LexerPrint RenderString ParserStateCb ParserState ParserStateBr ParserStateNames
+                                 ParserStateTok ParserStateEx.
 Import ListNotations.
 
 (* ---------- exactness of the reported names ---------- *)
@@ -66,6 +67,34 @@ Theorem C10_names_exact_multiset : forall junk ops s e,
   exists l, snd (step junk faithful (run junk faithful init ops) (OParse s)) = VP (VTree (flatten e) l) /\
             nperm l (enames e).
 Proof. exact names_exact_string. Qed.
+
+(* Exactness stated on the input itself, for EVERY token stream the grammar accepts: the names of the accepted
+   tree, in order of occurrence, are what a lexical scan of the input finds -- a name token directly followed
+   by '(' is a function, every other name token a variable, every numeral's suffix a suffix. *)
+Theorem C10_names_are_the_tokens_of_the_input : forall ts t,
+  parse_tokens ts = Some t -> scan_names ts = names_of t.
+Proof. exact token_names. Qed.
+
+Theorem C10_callbacks_record_exactly_the_input_tokens : forall ts t log,
+  cb_parse_tokens ts = (Some t, log) -> nperm log (scan_names ts).
+Proof. exact cb_exact_tokens. Qed.
+
+(* ... on the shared parser, after any history, for every accepted string *)
+Theorem C10_reported_names_are_the_tokens : forall junk ops s ts t,
+  check_brackets (strip_spaces s) = None -> lex (strip_spaces s) = Some ts -> parse_tokens ts = Some t ->
+  exists l, snd (step junk faithful (run junk faithful init ops) (OParse s)) = VP (VTree t l) /\
+            nperm l (scan_names ts).
+Proof. exact reported_names_are_the_tokens. Qed.
+
+(* names_exact for explicit renderings: canonical tokens of a derivation, arbitrary TAB / LF / CR runs before,
+   between and after them, spaces anywhere (tokens valid in the sense of C03's lexer round trip, which leaves
+   out suffixes beginning with e / E -- C10_names_exact covers those through its lexing hypothesis) *)
+Theorem C10_names_exact_rendering : forall junk ops e seps s,
+  wf_expr e = true -> Forall valid_token (render e) -> Forall (fun w => forallb is_ws w = true) seps ->
+  strip_spaces s = spaced seps (render e) ->
+  exists l, snd (step junk faithful (run junk faithful init ops) (OParse s)) = VP (VTree (flatten e) l) /\
+            nperm l (enames e).
+Proof. exact names_exact_rendering. Qed.
 
 (* the bracket pre-pass (on characters) never rejects a string that lexes to the token text of a tree *)
 Theorem C10_brackets_accept_token_text : forall k t, lex k = Some (print t) -> check_brackets k = None.
@@ -167,3 +196,17 @@ Example C10_ex_names_after_history : exists l,
   snd (step junk_q faithful (run junk_q faithful init history) (OParse s_xf)) = VP (VTree (flatten e_xf) l) /\
   nperm l (mkNames [[102%Z]; [120%Z]] [[120%Z]] [[107%Z]]).
 Proof. exact ex_names_after_history. Qed.
+
+(* " x( f)<TAB>+2k *<LF>x " is a rendering of the same derivation: hypotheses of C10_names_exact_rendering hold *)
+Example C10_ex_rendering_hypotheses_satisfiable :
+  wf_expr e_xf = true /\ Forall valid_token (render e_xf) /\
+  Forall (fun w => forallb is_ws w = true) seps_xf /\ strip_spaces s_xf_ws = spaced seps_xf (render e_xf).
+Proof. exact ex_rendering_hyps. Qed.
+
+Example C10_ex_rendering_names_after_history : exists l,
+  snd (step junk_q faithful (run junk_q faithful init history) (OParse s_xf_ws)) = VP (VTree (flatten e_xf) l) /\
+  nperm l (mkNames [[102%Z]; [120%Z]] [[120%Z]] [[107%Z]]).
+Proof. exact ex_rendering_names. Qed.
+
+Example C10_ex_scan : scan_names (render e_xf) = mkNames [[102%Z]; [120%Z]] [[120%Z]] [[107%Z]].
+Proof. exact ex_scan. Qed.
